@@ -85,6 +85,19 @@ func OnBegin(f func()) {
 	mu.Unlock()
 }
 
+// AfterRun is called by the controller once the bubble of a run has ended: the
+// package-level channels are re-created once more, outside any bubble, so that
+// code running later without the simulator does not touch a channel that
+// belongs to a finished bubble.
+func AfterRun() {
+	mu.Lock()
+	hooks := append([]func(){}, beginHooks...)
+	mu.Unlock()
+	for _, h := range hooks {
+		h()
+	}
+}
+
 // Begin starts a simulated run. It must be called inside the synctest bubble
 // by the controller goroutine. ncpu is what NumCPU() reports, ent is what
 // Entropy() returns (nil: the real crypto/rand.Reader).
